@@ -46,6 +46,9 @@ def check(run):
     cadence(R)
     poll(R)
     ping(R)
+    from . import C09
+    with R.as_rule('C15.ping'):
+        C09.swallow(R)      # an automatic ping (or pong / close) that write() refuses does not end the session
     pong(R)
     close(R)
     params(R)
@@ -77,6 +80,11 @@ def gate(R):
     direct = sorted(set(c_.func.qual for (c_, call) in allc if id(call) not in sites))
     R.ob('C15.gate', 'no ungated housekeeping', not direct, '_regular called from %s' % direct,
          func=S + '._regular', node=None, construct='_regular callers %s' % direct)
+    ws = _writers(R, '_start_time', S)
+    wq = sorted(set(c_.func.qual for (c_, s, t, v) in ws if U(v) != 'None'))
+    R.ob('C15.gate', 'the session clock is started by _on_ready only', wq == [S + '._on_ready'],
+         '_start_time is set in %s: session time would not count from Ready, while _on_ready still initialises _last_pong / '
+         '_next_ping as if it did' % wq, func=S + '._on_ready', node=None, construct='_start_time writers %s' % wq)
     w = _writers(R, '_ready', S)
     tw = [(c_, s) for (c_, s, t, v) in w if U(v) == 'True']
     R.ob('C15.gate', 'single True writer of _ready', len(tw) == 1 and tw[0][0].func.qual == S + '._on_event',
@@ -297,7 +305,7 @@ def pong(R):
              func=q3, node=y.ast)
 
 
-def close(R, RID='C15.close'):
+def close(R, RID='C15.close', rearm=True):
     q, g, rd, f = _check_fn(R, '_check_close_timeout')
     to, tm = f.params[1], f.params[2]
     sent = None
@@ -354,9 +362,10 @@ def close(R, RID='C15.close'):
              func=gq, node=s)
         lits = {(t_, p) for (t_, p, _) in guards_of(gc, n)}
         ok = ('self.state.closing', False) in lits or ('self.is_closing', False) in lits
-        R.ob(RID, 'close time recorded only by the first close()', ok,
-             'every repeated close() re-arms the close timeout (guards: %s): the forced disconnect can be postponed '
-             'indefinitely' % sorted(lits), func=gq, node=s)
+        if rearm:
+            R.ob(RID, 'close time recorded only by the first close()', ok,
+                 'every repeated close() re-arms the close timeout (guards: %s): the forced disconnect can be postponed '
+                 'indefinitely' % sorted(lits), func=gq, node=s)
         sc = [m for (m, _) in calls_to(R, gc, 'websocket.WebSocket._send_close')]
         ok = bool(sc) and all_paths_pass(gc, [gc.entry], sc, [n], skip_edge=nx)
         R.ob(RID, 'close time recorded after the Close frame was sent', ok, 'sent_close_time stored before the send',
